@@ -125,7 +125,8 @@ def parse_race_reports(text):
 
 
 def load_race_findings():
-    """finding lines of C18 carry race=<regex>: a report belongs to the finding if either side matches."""
+    """finding lines of C18 carry race=<regex> (the unsynchronised mutator) and optionally other=<regex> (what the
+    partner access may be): a report belongs to the finding if one side matches race= and the other side other=."""
     out = []
     if not os.path.exists(KF_FILE):
         return out
@@ -134,8 +135,9 @@ def load_race_findings():
         if line.startswith("finding:") and "property=C18" in line:
             k = re.search(r"\bkey=(\S+)", line)
             r = re.search(r"\brace=(\S+)", line)
+            o = re.search(r"\bother=(\S+)", line)
             if k and r:
-                out.append((k.group(1), re.compile(r.group(1)), line))
+                out.append((k.group(1), re.compile(r.group(1)), line, re.compile(o.group(1)) if o else None))
     return out
 
 
@@ -442,8 +444,8 @@ def _run_check(prop, tier, spec, seed, t0, workdir):
         findings = load_race_findings()
         for key, (cnt, ex) in sorted(race_pairs.items()):
             hit = None
-            for slug, rx, line in findings:
-                if rx.search(key[0]) or rx.search(key[1]):
+            for slug, rx, line, other in findings:
+                if (rx.search(key[0]) and (other is None or other.search(key[1]))) or (rx.search(key[1]) and (other is None or other.search(key[0]))):
                     hit = slug
                     break
             if hit:
@@ -452,9 +454,9 @@ def _run_check(prop, tier, spec, seed, t0, workdir):
                 rp = os.path.join(workdir, "replays", "%s__race__%d.txt" % (prop, len(violations)))
                 open(rp, "w").write("unlisted data race: %s <-> %s (%d reports)\n\nWARNING: DATA RACE%s" % (key[0], key[1], cnt, ex))
                 violations.append((save_replay(prop, rp, "race"), "data race between %s and %s (%d reports) is not a listed finding" % (key[0], key[1], cnt)))
-        for slug, rx, line in findings:
+        for slug, rx, line, other in findings:
             if slug in race_known:
-                print("KNOWN-FINDING: property=%s key=%s %s [observed: %s]" % (prop, slug, re.sub(r"^finding:\s*property=\S+\s+key=\S+\s+race=\S+\s*", "", line)[:400], "; ".join(race_known[slug][:4])))
+                print("KNOWN-FINDING: property=%s key=%s %s [observed: %s]" % (prop, slug, re.sub(r"^finding:\s*property=\S+\s+key=\S+\s+race=\S+\s*(other=\S+\s*)?", "", line)[:400], "; ".join(race_known[slug][:4])))
     agg, kf = merge_stats(stats_files, prop)
     # every listed finding whose reproduction still fails and whose switch this run consulted
     for slug, st in sorted(kf.items()):
